@@ -129,7 +129,10 @@ var (
 	cdiKeys     = []string{"v.com/c=x1", "v.com/c=x2", "v.com/c=x3"}
 	rlimitKeys  = []string{"RLIMIT_NOFILE", "RLIMIT_NPROC", "RLIMIT_CORE"}
 	hugeKeys    = []string{"2MB", "1GB"}
-	unifiedKeys = []string{"u.a", "u.b", "u.c"}
+	// two made-up keys and three real cgroup v2 files that are the unified spelling of typed
+	// fields (pids limit, memory limit, CPU shares): a typed field and its unified twin are
+	// two different items
+	unifiedKeys = []string{"u.a", "u.b", "pids.max", "memory.max", "cpu.weight"}
 	hookKeys    = []string{"prestart", "createRuntime", "createContainer", "startContainer", "poststart", "poststop"}
 	scalarFams  = []string{"memLimit", "memReservation", "memSwap", "memKernel", "memKernelTcp", "memSwappiness",
 		"memDisableOom", "memUseHierarchy", "cpuShares", "cpuQuota", "cpuPeriod", "cpuRtRuntime", "cpuRtPeriod",
@@ -652,11 +655,31 @@ func forceNearMiss(t *rapid.T, c *Case) {
 		}
 		s.Updates = append(s.Updates, Upd{Target: target, Fields: []string{field}})
 	}
-	mode := rapid.IntRange(0, 3).Draw(t, "nmode")
+	mode := rapid.IntRange(0, 4).Draw(t, "nmode")
 	if c.Kind != "create" && mode == 0 {
 		mode = 1
 	}
 	switch mode {
+	case 4: // a typed field and its unified twin, same target (or the created container): no conflict
+		tw := gen.Pick(t, "ntwin", [][2]string{{"pids", "pids.max"}, {"memLimit", "memory.max"}, {"cpuShares", "cpu.weight"}})
+		if gen.Uniform(t, "ntwinswap", 2) == 0 {
+			a, b = b, a
+		}
+		if gen.Uniform(t, "ntwinsame", 3) == 0 {
+			b = a // one plugin sets both
+		}
+		if c.Kind == "create" && gen.Uniform(t, "ntwinadj", 2) == 0 {
+			addOp(a, Op{Fam: tw[0], Act: "set"})
+			addOp(b, Op{Fam: "unified", Key: tw[1], Act: "set"})
+			return
+		}
+		tg := append([]string{}, targets...)
+		if c.Kind != "create" {
+			tg = append(tg, "SELF", "SELF")
+		}
+		target := gen.Pick(t, "ntwintarget", tg)
+		addUpd(a, target, tw[0])
+		addUpd(b, target, "unified/"+tw[1])
 	case 0: // two keys of one keyed family
 		fam := gen.Pick(t, "nfam", append(append([]string{}, removableFams...), keyedSetFams...))
 		keys := keysOf(fam)
